@@ -143,6 +143,30 @@ def pipeline : List Verdict → Verdict
   | .ok :: rest => pipeline rest
   | v :: _ => v
 
+/-! ### `get_validator(function_names)`: the chain is resolved from configuration text before it exists -/
+
+/-- what a configured entry turns out to be: `object_from_path` raises (misspelt module, import error, missing attribute, not a
+    dotted path), it names something that cannot be called, or it names a function -/
+inductive Entry (α : Type) where
+  | unresolved
+  | notCallable
+  | fn (f : α → Verdict)
+
+def Entry.isUnresolved {α : Type} : Entry α → Bool
+  | .unresolved => true
+  | _ => false
+
+/-- `none`: `get_validator` raises, the storage cannot be constructed, the relay does not start.  Otherwise the chain runs every entry
+    in order; calling a non-callable raises TypeError, which refuses the event. -/
+def Entry.run {α : Type} (e : α) : Entry α → Verdict
+  | .fn f => f e
+  | _ => .raises
+
+def getValidator {α : Type} (es : List (Entry α)) : Option (α → Verdict) :=
+  if es.any Entry.isUnresolved then none
+  else some fun e => pipeline (es.map (Entry.run e))
+
+
 /-! ### dynamic list refresh as a sequence of atomic set operations -/
 
 inductive SetOp where
